@@ -262,6 +262,12 @@ def handleHp (st : DrvSt) (toks : List String) : DrvSt × String :=
   let s := st.hp
   match toks with
   | ["reset"] => ({ st with hp := Route.init }, "ok")
+  | ["classify", src, dst, payload] =>
+    match apTok? src, apTok? dst with
+    | some src, some dst =>
+      let al := Keys.flowAllowsSniffing src dst
+      (st, s!"al={boolStr al} qi={boolStr (al && payload == "quic")} hs=0 sameKey=1")
+    | _, _ => (st, "bad-op")
   | ["inval"] => (st, s!"removed=0 {hpDigest s}")   -- every endpoint of this stream has carried traffic: it survives
   | "pkt" :: src :: dst :: hs :: qi :: al :: sens :: ws :: rest =>
     match apTok? src, apTok? dst, boolTok? hs, boolTok? qi, boolTok? al, boolTok? sens, routingTok? rest with
